@@ -5,7 +5,7 @@ PROP = dict(
          'and 5 wrapper slots (ArrayView, OwnedArray, FixedArray, FixedArrayView) for element types uint8/int/double/12-byte '
          'POD: construct / assign / reset / resize / copy-construct / copy-assign / destroy wrappers, destroy or overwrite '
          'sources; after EVERY op every live wrapper is read completely under ASan and compared with a value model '
-         '(size, data, iteration, at() boundaries, aliasing); DataView over exact-size blocks with aligned strides. '
+         '(size, data, iteration, at() boundaries, aliasing); DataView over exact-size blocks with aligned strides; thorough tier only: a FixedArray of 4 GiB + 4 KiB bytes copied from a sparse source. '
          'non-trivial = a copy of an owning array is read after its original was destroyed / reallocated / re-assigned, '
          'or a FixedArrayView is read after its FixedArray handle was destroyed or re-assigned; DataView: stride != '
          'sizeof(T) with >= 2 elements; distinct by hash of the op list',
